@@ -300,7 +300,12 @@ pub fn corpus() -> &'static Vec<Artefact> {
         // --- small programs of the conformance corpus: text, and their flat / cbor / hex forms
         let conf = crate::budget::corpus();
         for (i, p) in conf.programs.iter().enumerate() {
-            if i % 23 != 0 {
+            // every 23rd program, plus a denser sample of those whose text exercises the richer
+            // parts of the grammar (strings with escapes, data, lists / pairs, BLS elements)
+            let rich = ["con string", "con data", "con (list", "con (pair", "bls12_381", "(constr", "(case"]
+                .iter()
+                .any(|k| p.code.contains(k));
+            if !(i % 23 == 0 || (rich && i % 5 == 0)) {
                 continue;
             }
             arts.push(Artefact {
